@@ -560,6 +560,9 @@ func (x *Exec) checkFrameWrite(fr *Frame, comp, ref, idx, what string) {
 	}
 	var alts []string
 	alts = append(alts, sx(">=", ref, top.allocEntry))
+	if x.emptyRange != "" {
+		alts = append(alts, x.emptyRange)
+	}
 	for _, ls := range top.modLocs {
 		match := false
 		for _, cn := range ls.Comps {
@@ -590,9 +593,11 @@ func (x *Exec) checkFrameLoc(fr *Frame, ls LocSet, what string) {
 	for _, cn := range ls.Comps {
 		idx := ""
 		if ls.Lo != "" {
-			// the whole range must be covered: check both ends
+			// the whole range must be covered: check both ends (an empty range writes nothing)
+			x.emptyRange = sx(">=", ls.Lo, ls.Hi)
 			x.checkFrameWrite(fr, cn, ls.Ref, ls.Lo, what)
 			x.checkFrameWrite(fr, cn, ls.Ref, sub(ls.Hi, "1"), what)
+			x.emptyRange = ""
 			continue
 		}
 		x.checkFrameWrite(fr, cn, ls.Ref, idx, what)
